@@ -394,6 +394,10 @@ def _implementedBy_super(sup):
     # to consider the whole MRO and compute a new Implements
     # that excludes the classes being skipped over but
     # includes everything else.
+    if sup.__thisclass__ is sup.__self_class__.__mro__[-1]:
+        # ``super(object, ob)``: no class is left in the search order.
+        return _empty
+
     implemented_by_self = implementedBy(sup.__self_class__)
     cache = implemented_by_self._super_cache  # pylint:disable=protected-access
     if cache is None:
